@@ -1,8 +1,500 @@
-(* C15 — proofs *)
+(* C15 — proofs about the model (Model.v) against the specification (Spec.v). *)
 From Coq Require Import ZArith NArith Bool List Lia.
 Require Import QV.C15.Model QV.C15.Spec.
 Import ListNotations.
 Open Scope Z_scope.
 
-Lemma update_fixed_root : forall us n m w ch, rep_of (update us (Node (Fixed n) m w ch)) = Fixed n.
+(* ------------------------------------------------------------------------------------------------------------ *)
+(* list / membership helpers *)
+Lemma mem_app x a b : mem x (a ++ b) = mem x a || mem x b.
+Proof. unfold mem. apply existsb_app. Qed.
+
+Lemma mem_true_iff x l : mem x l = true <-> In x l.
+Proof.
+  unfold mem. rewrite existsb_exists. split.
+  - intros [y [Hy E]]. apply N.eqb_eq in E. subst. exact Hy.
+  - intros H. exists x. split; [exact H|apply N.eqb_refl].
+Qed.
+
+Lemma mem_cons x y l : mem x (y :: l) = N.eqb x y || mem x l.
 Proof. reflexivity. Qed.
+Lemma mem_nil x : mem x [] = false.
+Proof. reflexivity. Qed.
+
+Lemma mem_filter x f l : mem x (filter f l) = mem x l && f x.
+Proof.
+  induction l as [|y l IH]; [reflexivity|]. cbn [filter].
+  destruct (f y) eqn:Fy; rewrite ?mem_cons, IH; destruct (N.eqb x y) eqn:E; cbn [orb andb]; try reflexivity;
+    apply N.eqb_eq in E; subst; rewrite Fy; rewrite ?andb_false_r; reflexivity.
+Qed.
+
+Lemma lookup_mem_fst {A} x (m : list (name * A)) :
+  mem x (map fst m) = match lookup x m with Some _ => true | None => false end.
+Proof.
+  induction m as [|[k v] m IH]; [reflexivity|]. cbn [map fst lookup]. rewrite mem_cons.
+  destruct (N.eqb x k); cbn [orb]; [reflexivity|exact IH].
+Qed.
+
+(* members of  map fst (filter g m)  when g only looks at the key *)
+Lemma mem_map_fst_filter {A} x (g : name -> bool) (m : list (name * A)) :
+  mem x (map fst (filter (fun xe => g (fst xe)) m)) = mem x (map fst m) && g x.
+Proof.
+  induction m as [|[k v] m IH]; [reflexivity|]. cbn [filter map fst].
+  destruct (g k) eqn:G; cbn [map fst]; rewrite ?mem_cons, IH; destruct (N.eqb x k) eqn:E; cbn [orb andb];
+    try reflexivity; apply N.eqb_eq in E; subst; rewrite G; rewrite ?andb_false_r; reflexivity.
+Qed.
+
+Lemma existsb_ext' {A} (f g : A -> bool) l : (forall x, f x = g x) -> existsb f l = existsb g l.
+Proof. intros H. induction l; cbn; [reflexivity|]. rewrite H, IHl. reflexivity. Qed.
+
+Lemma filter_ext' {A} (f g : A -> bool) l : (forall x, f x = g x) -> filter f l = filter g l.
+Proof. intros H. induction l; cbn; [reflexivity|]. rewrite H, IHl. reflexivity. Qed.
+
+Lemma eval_ext f g e : (forall x, f x = g x) -> eval f e = eval g e.
+Proof. intros H. induction e; cbn; try rewrite IHe1, IHe2; auto. Qed.
+
+(* ------------------------------------------------------------------------------------------------------------ *)
+(* T1: the key set reported by get_volatile_parameters is exactly "depends on a volatile parameter" *)
+Lemma vkeys_depends : forall s x, mem x (vkeys s) = depends s x.
+Proof.
+  induction s as [vals vol|inner IH m|a sa IHa b sb IHb]; intros x; cbn [vkeys depends].
+  - reflexivity.
+  - destruct (vkeys inner) as [|v0 vs] eqn:EV.
+    + cbn. destruct (lookup x m) as [e|].
+      * symmetry. rewrite (existsb_ext' _ (fun _ => false)).
+        { induction (vars e); cbn; auto. }
+        intros y. rewrite <- IH. reflexivity.
+      * rewrite <- IH. reflexivity.
+    + rewrite mem_app, mem_filter.
+      rewrite (mem_map_fst_filter x (fun k => match lookup k m with
+                                               | Some e => intersects (vars e) (v0 :: vs)
+                                               | None => false end) m).
+      rewrite lookup_mem_fst.
+      destruct (lookup x m) as [e|]; cbn [andb orb].
+      * rewrite andb_false_r. cbn [orb]. unfold intersects.
+        apply existsb_ext'. intros y. rewrite <- IH. reflexivity.
+      * rewrite andb_true_r, orb_false_r. apply IH.
+  - rewrite mem_app.
+    assert (E : forall n s0, mem x (if mem n (vkeys s0) then [n] else []) = N.eqb x n && mem n (vkeys s0)).
+    { intros n s0. destruct (mem n (vkeys s0)); cbn; [rewrite orb_false_r, andb_true_r|rewrite andb_false_r]; reflexivity. }
+    rewrite !E.
+    destruct (N.eqb x a) eqn:Ea; destruct (N.eqb x b) eqn:Eb; cbn;
+      try (apply N.eqb_eq in Ea; subst a); try (apply N.eqb_eq in Eb; subst b);
+      rewrite ?IHa, ?IHb; reflexivity.
+Qed.
+
+Lemma intersects_depends e s : intersects (vars e) (vkeys s) = existsb (depends s) (vars e).
+Proof. unfold intersects. apply existsb_ext'. intros y. apply vkeys_depends. Qed.
+
+(* ------------------------------------------------------------------------------------------------------------ *)
+(* T2: create_program of the model = the independent instantiation of Spec.v *)
+
+Lemma spec_inst_ext : forall p s1 s2 d1 d2,
+  (forall x, s1 x = s2 x) -> (forall x, d1 x = d2 x) -> spec_inst p s1 d1 = spec_inst p s2 d2.
+Proof.
+  fix IH 1. intros p s1 s2 d1 d2 Hs Hd. destruct p as [w|l|e m body|mp body]; cbn [spec_inst].
+  - reflexivity.
+  - induction l as [|q r IHr]; [reflexivity|].
+    rewrite (IH q s1 s2 d1 d2 Hs Hd). rewrite IHr. reflexivity.
+  - rewrite (eval_ext s1 s2 e Hs). destruct (eval s2 e) as [v|]; [|reflexivity].
+    destruct (v <=? 0); [reflexivity|].
+    rewrite (IH body s1 s2 d1 d2 Hs Hd).
+    rewrite (existsb_ext' d1 d2 _ Hd), (filter_ext' d1 d2 _ Hd). reflexivity.
+  - apply IH.
+    + intros x. unfold map_sigma. destruct (lookup x mp); [apply eval_ext; exact Hs|apply Hs].
+    + intros x. unfold map_delta. destruct (lookup x mp); [apply existsb_ext'; exact Hd|apply Hd].
+Qed.
+
+Definition res_obs (r : result (list prog * bool)) : option (list otree) :=
+  match r with Ok (ks, _) => Some (map obs_of ks) | Err _ => None end.
+
+(* errors of the model are exactly the evaluation failures of the specification *)
+Lemma cp_meets_spec : forall p s, res_obs (cp p s) = spec_inst p (get_param s) (depends s).
+Proof.
+  fix IH 1. intros p s. destruct p as [w|l|e m body|mp body]; cbn [cp spec_inst].
+  - reflexivity.
+  - induction l as [|q r IHr]; [reflexivity|].
+    rewrite <- (IH q s). destruct (cp q s) as [[k1 m1]|k]; cbn [res_obs]; [|reflexivity].
+    rewrite <- IHr.
+    match goal with |- context [match ?X with Ok _ => _ | Err _ => _ end] => destruct X as [[k2 m2]|k'] end;
+      cbn [res_obs]; [rewrite map_app|]; reflexivity.
+  - destruct (eval (get_param s) e) as [v|] eqn:EV; [|reflexivity].
+    destruct (0 <? v) eqn:Pv.
+    + assert (Hle : (v <=? 0) = false) by lia. rewrite Hle.
+      rewrite <- (IH body s). destruct (cp body s) as [[ks km]|k]; cbn [res_obs]; [|reflexivity].
+      destruct ks as [|k0 ks']; [reflexivity|]. cbn [map].
+      cbn [res_obs map obs_of]. f_equal. f_equal. f_equal.
+      * unfold cnt. cbn [rep_of]. rewrite intersects_depends.
+        destruct (existsb (depends s) (vars e)); cbn [int_of_rep]; [rewrite EV; f_equal; lia|reflexivity].
+      * rewrite intersects_depends.
+        destruct (existsb (depends s) (vars e)); cbn [dep_keys]; [|reflexivity].
+        f_equal. f_equal. apply filter_ext'. intros x. apply vkeys_depends.
+    + assert (Hle : (v <=? 0) = true) by lia. rewrite Hle. reflexivity.
+  - rewrite (IH body (SMapped s mp)). apply spec_inst_ext.
+    + intros x. cbn [get_param]. unfold map_sigma. reflexivity.
+    + intros x. cbn [depends]. unfold map_delta. reflexivity.
+Qed.
+
+Definition prog_obs (r : result (option prog)) : option (option otree) :=
+  match r with Ok (Some t) => Some (Some (obs_of t)) | Ok None => Some None | Err _ => None end.
+
+Lemma create_program_meets_spec : forall p vals V,
+  prog_obs (create_program p vals V) = spec_program p vals V.
+Proof.
+  intros p vals V. unfold create_program, spec_program.
+  assert (H := cp_meets_spec p (SDict vals V)).
+  rewrite (spec_inst_ext p (env_of vals) (get_param (SDict vals V)) (fun x => mem x V) (depends (SDict vals V)))
+    by reflexivity.
+  rewrite <- H. destruct (cp p (SDict vals V)) as [[ks m]|k]; cbn [res_obs]; [|reflexivity].
+  destruct ks as [|k0 ks']; reflexivity.
+Qed.
+
+(* ------------------------------------------------------------------------------------------------------------ *)
+(* T3: updating the volatile counts of an instantiated program = instantiating with the new values *)
+Lemma vkeys_change : forall us s, vkeys (change us s) = vkeys s.
+Proof.
+  intros us. induction s as [vals vol|inner IH m|a sa IHa b sb IHb]; cbn [change vkeys].
+  - reflexivity.
+  - rewrite IH. reflexivity.
+  - rewrite IHa, IHb. reflexivity.
+Qed.
+
+Lemma depends_change us s x : depends (change us s) x = depends s x.
+Proof. rewrite <- !vkeys_depends, vkeys_change. reflexivity. Qed.
+
+Lemma lookup_override x us vals :
+  lookup x (override us vals) =
+  match lookup x vals with
+  | Some v => Some (match lookup x us with Some v' => v' | None => v end)
+  | None => None
+  end.
+Proof.
+  induction vals as [|[k v] vals IH]; [reflexivity|]. cbn [override map fst snd lookup].
+  destruct (N.eqb x k) eqn:E; [apply N.eqb_eq in E; subst; reflexivity|exact IH].
+Qed.
+
+Lemma keys_in_lookup us V x : keys_in us V = true -> mem x V = false -> lookup x us = None.
+Proof.
+  induction us as [|[k v] us IH]; intros H Hx; [reflexivity|]. cbn [keys_in forallb fst] in H.
+  apply andb_prop in H as [H1 H2]. cbn [lookup].
+  destruct (N.eqb x k) eqn:E; [apply N.eqb_eq in E; subst; congruence|]. apply IH; assumption.
+Qed.
+
+Lemma eval_ext_vars f g e : (forall x, In x (vars e) -> f x = g x) -> eval f e = eval g e.
+Proof.
+  induction e; cbn [eval vars]; intros H; try reflexivity.
+  - apply H. left. reflexivity.
+  - rewrite IHe1, IHe2; [reflexivity| |]; intros x Hx; apply H; apply in_or_app; auto.
+  - rewrite IHe1, IHe2; [reflexivity| |]; intros x Hx; apply H; apply in_or_app; auto.
+  - rewrite IHe1, IHe2; [reflexivity| |]; intros x Hx; apply H; apply in_or_app; auto.
+Qed.
+
+Lemma existsb_false_in {A} (f : A -> bool) l : existsb f l = false -> forall x, In x l -> f x = false.
+Proof.
+  induction l as [|y l IH]; intros H x Hx; [destruct Hx|]. cbn in H. apply orb_false_elim in H as [H1 H2].
+  destruct Hx as [->|Hx]; auto.
+Qed.
+
+(* a name that does not depend on a volatile parameter keeps its value under an update of volatile parameters *)
+Lemma get_param_change_nondep : forall us s x,
+  root_vol_ok us s = true -> depends s x = false -> get_param (change us s) x = get_param s x.
+Proof.
+  intros us. induction s as [vals vol|inner IH m|a sa IHa b sb IHb]; intros x Hok Hd; cbn [change get_param].
+  - cbn in Hok, Hd. change (map _ vals) with (override us vals). rewrite lookup_override.
+    rewrite (keys_in_lookup us vol x Hok Hd). destruct (lookup x vals); reflexivity.
+  - cbn [root_vol_ok] in Hok. cbn [depends] in Hd. destruct (lookup x m) as [e|].
+    + apply eval_ext_vars. intros y Hy. apply IH; [exact Hok|]. eapply existsb_false_in; eauto.
+    + apply IH; assumption.
+  - cbn [root_vol_ok] in Hok. apply andb_prop in Hok as [Ha Hb]. cbn [depends] in Hd.
+    apply orb_false_elim in Hd as [H1 H2].
+    destruct (N.eqb x a) eqn:Ea; [apply IHa; [exact Ha|]; cbn in H1; exact H1|].
+    destruct (N.eqb x b) eqn:Eb; [apply IHb; [exact Hb|]; cbn in H2; exact H2|]. reflexivity.
+Qed.
+
+Lemma update_is_reinstantiate_cp : forall p s us ks m,
+  root_vol_ok us s = true -> allpos p s = true -> allpos p (change us s) = true ->
+  cp p s = Ok (ks, m) -> cp p (change us s) = Ok (map (update us) ks, m).
+Proof.
+  fix IH 1. intros p s us ks m Hok Hp Hp' Hcp. destruct p as [w|l|e mm body|mp body].
+  - cbn in Hcp |- *. inversion Hcp; subst. reflexivity.
+  - cbn [cp] in Hcp |- *. cbn [allpos] in Hp, Hp'.
+    revert ks m Hp Hp' Hcp. induction l as [|q r IHr]; intros ks m Hp Hp' Hcp.
+    + inversion Hcp; subst. reflexivity.
+    + cbn [forallb] in Hp, Hp'. apply andb_prop in Hp as [Hq Hr]. apply andb_prop in Hp' as [Hq' Hr'].
+      destruct (cp q s) as [[k1 m1]|k] eqn:E1; [|discriminate].
+      rewrite (IH q s us k1 m1 Hok Hq Hq' E1).
+      match type of Hcp with context [match ?X with Ok _ => _ | Err _ => _ end] => destruct X as [[k2 m2]|k'] eqn:E2 end;
+        [|discriminate].
+      rewrite (IHr k2 m2 Hr Hr' eq_refl). inversion Hcp; subst. rewrite map_app. reflexivity.
+  - cbn [cp] in Hcp |- *. cbn [allpos] in Hp, Hp'.
+    destruct (eval (get_param s) e) as [v|] eqn:EV; [|discriminate].
+    destruct (eval (get_param (change us s)) e) as [v'|] eqn:EV'; [|discriminate].
+    apply andb_prop in Hp as [Hv Hb]. apply andb_prop in Hp' as [Hv' Hb'].
+    rewrite Hv in Hcp. rewrite Hv'.
+    destruct (cp body s) as [[kb km]|k] eqn:EB; [|discriminate].
+    rewrite (IH body s us kb km Hok Hb Hb' EB).
+    destruct kb as [|k0 kb']; [inversion Hcp; subst; reflexivity|]. cbn [map].
+    inversion Hcp; subst. cbn [map update]. f_equal. f_equal. f_equal. f_equal.
+    rewrite vkeys_change. rewrite intersects_depends.
+    destruct (existsb (depends s) (vars e)) eqn:ED; cbn [upd_rep]; [reflexivity|].
+    f_equal. assert (E : eval (get_param (change us s)) e = eval (get_param s) e).
+    { apply eval_ext_vars. intros y Hy. apply get_param_change_nondep; [exact Hok|]. eapply existsb_false_in; eauto. }
+    rewrite E in EV'. congruence.
+  - cbn [cp allpos] in *. apply (IH body (SMapped s mp) us ks m); assumption.
+Qed.
+
+Lemma change_dict us vals V : change us (SDict vals V) = SDict (override us vals) V.
+Proof. reflexivity. Qed.
+
+Lemma update_is_reinstantiate : forall p vals V us t,
+  keys_in us V = true ->
+  guard_C15_zero_count p vals V = true -> guard_C15_zero_count p (override us vals) V = true ->
+  create_program p vals V = Ok (Some t) ->
+  create_program p (override us vals) V = Ok (Some (update us t)).
+Proof.
+  intros p vals V us t Hk Hg Hg' Hc. unfold create_program in *. unfold guard_C15_zero_count in *.
+  destruct (cp p (SDict vals V)) as [[ks m]|k] eqn:E; [|discriminate].
+  rewrite <- change_dict.
+  rewrite (update_is_reinstantiate_cp p (SDict vals V) us ks m Hk Hg Hg' E).
+  destruct ks as [|k0 ks']; [discriminate|]. inversion Hc; subst. reflexivity.
+Qed.
+
+Lemma update_sequence_is_reinstantiate : forall ups p vals V t,
+  guard_C15_zero_count_seq p vals V ups = true ->
+  create_program p vals V = Ok (Some t) ->
+  create_program p (override_all ups vals) V = Ok (Some (update_all ups t)).
+Proof.
+  induction ups as [|us r IH]; intros p vals V t Hg Hc; [exact Hc|].
+  cbn [guard_C15_zero_count_seq] in Hg. apply andb_prop in Hg as [G0 Hg]. apply andb_prop in Hg as [Hk Hr].
+  cbn [override_all update_all fold_left]. apply IH; [exact Hr|].
+  apply update_is_reinstantiate; try assumption.
+  destruct r; cbn [guard_C15_zero_count_seq] in Hr; apply andb_prop in Hr as [G1 _]; exact G1.
+Qed.
+
+(* the faithful model of the unchanged code violates the unguarded statement: a count that is 0 at instantiation *)
+Lemma update_zero_count_refuted :
+  exists p vals V us t,
+    keys_in us V = true /\ create_program p vals V = Ok (Some t) /\
+    create_program p (override us vals) V <> Ok (Some (update us t)).
+Proof.
+  exists (PSeq [PRep (EVar 1%N) false (PAtom 0%N); PAtom 1%N]), [(1%N, 0)], [1%N], [(1%N, 2)].
+  eexists. split; [reflexivity|]. split; [vm_compute; reflexivity|]. vm_compute. discriminate.
+Qed.
+
+(* non-vacuity: a nested, mapped, multiplied template with two updates satisfies all hypotheses *)
+Definition ex_pt : pt :=
+  PMap [(1%N, EAdd (EVar 4%N) (EConst 1))]
+       (PRep (EMul (EConst 2) (EVar 1%N)) false (PSeq [PAtom 0%N; PRep (EMul (EVar 1%N) (EVar 2%N)) true (PAtom 1%N)])).
+Lemma ex_guard : guard_C15_zero_count_seq ex_pt [(2%N, 3); (4%N, 1)] [4%N] [[(4%N, 2)]; [(4%N, 5)]] = true.
+Proof. vm_compute. reflexivity. Qed.
+Lemma ex_changes : exists t, create_program ex_pt [(2%N, 3); (4%N, 1)] [4%N] = Ok (Some t) /\
+                             obs_of (update_all [[(4%N, 2)]; [(4%N, 5)]] t) <> obs_of t.
+Proof. eexists. split; [vm_compute; reflexivity|]. vm_compute. discriminate. Qed.
+
+(* ------------------------------------------------------------------------------------------------------------ *)
+(* T4: merging / cleanup keep volatility and commute with updates *)
+Lemma prog_ind' (P : prog -> Prop) :
+  (forall r m w ch, Forall P ch -> P (Node r m w ch)) -> forall t, P t.
+Proof.
+  intros H. fix IH 1. intros [r m w ch]. apply H.
+  induction ch as [|c ch IHch]; constructor; [apply IH|exact IHch].
+Qed.
+
+Lemma upd_merge_rep us r rc : upd_rep us (merge_rep r rc) = merge_rep (upd_rep us r) (upd_rep us rc).
+Proof. destruct r, rc; reflexivity. Qed.
+
+Lemma is_vol_merge_rep r rc : is_vol (merge_rep r rc) = is_vol r || is_vol rc.
+Proof. destruct r, rc; reflexivity. Qed.
+
+Lemma mergeable_update us t : mergeable (update us t) = mergeable t.
+Proof.
+  destruct t as [r m w [|[rc mc wc chc] [|c2 ch]]]; cbn; try reflexivity.
+  destruct rc; reflexivity.
+Qed.
+
+Lemma merge_update us t : merge (update us t) = update us (merge t).
+Proof.
+  destruct t as [r m w [|[rc mc wc chc] [|c2 ch]]]; cbn [update map merge]; try reflexivity.
+  cbn [update]. rewrite upd_merge_rep. reflexivity.
+Qed.
+
+Definition cleanup_child (c : prog) : list prog :=
+  match c with
+  | Node _ _ cw [] => match cw with None => [] | Some _ => [c] end
+  | _ => match cleanup c with
+         | Node _ _ None [] => []
+         | c' => [c']
+         end
+  end.
+
+Lemma cleanup_unfold r m w ch :
+  cleanup (Node r m w ch) =
+  let t' := Node r m w (flat_map cleanup_child ch) in if mergeable t' then merge t' else t'.
+Proof. reflexivity. Qed.
+
+Lemma cleanup_update : forall us t, cleanup (update us t) = update us (cleanup t).
+Proof.
+  intros us. induction t as [r m w ch IH] using prog_ind'.
+  cbn [update]. rewrite !cleanup_unfold. cbv zeta.
+  assert (E : flat_map cleanup_child (map (update us) ch) = map (update us) (flat_map cleanup_child ch)).
+  { induction IH as [|c ch Hc _ IHch]; [reflexivity|]. cbn [map flat_map]. rewrite map_app, IHch. f_equal.
+    destruct c as [rc mc wc [|c1 chc]].
+    - cbn. destruct wc; reflexivity.
+    - change (cleanup_child (update us (Node rc mc wc (c1 :: chc))))
+        with (match cleanup (update us (Node rc mc wc (c1 :: chc))) with Node _ _ None [] => [] | c' => [c'] end).
+      change (cleanup_child (Node rc mc wc (c1 :: chc)))
+        with (match cleanup (Node rc mc wc (c1 :: chc)) with Node _ _ None [] => [] | c' => [c'] end).
+      rewrite Hc. destruct (cleanup (Node rc mc wc (c1 :: chc))) as [r' m' [w'|] [|x xs]]; reflexivity. }
+  rewrite E.
+  change (Node (upd_rep us r) m w (map (update us) (flat_map cleanup_child ch)))
+    with (update us (Node r m w (flat_map cleanup_child ch))).
+  rewrite mergeable_update. destruct (mergeable (Node r m w (flat_map cleanup_child ch))); [apply merge_update|reflexivity].
+Qed.
+
+(* the merged count is the product of the two counts (one of them non-negative; both negative: see below) *)
+Lemma merge_rep_count r rc a b :
+  int_of_rep r = Some a -> int_of_rep rc = Some b ->
+  (match r, rc with Vol _ _, Vol _ _ => False | _, _ => True end) -> 0 <= a -> 0 <= b ->
+  int_of_rep (merge_rep r rc) = Some (a * b).
+Proof.
+  destruct r as [x|e s], rc as [y|ec sc]; cbn [int_of_rep merge_rep eval]; intros Ha Hb Hn H0 H1.
+  - inversion Ha; inversion Hb; reflexivity.
+  - inversion Ha; subst. destruct (eval (get_param sc) ec) as [v|]; [|discriminate]. inversion Hb; subst. f_equal. nia.
+  - inversion Hb; subst. destruct (eval (get_param s) e) as [v|]; [|discriminate]. inversion Ha; subst. f_equal. nia.
+  - destruct Hn.
+Qed.
+
+(* two volatile counts: the joint scope evaluates the product of the raw values *)
+Lemma merge_rep_count_joint e s ec sc v1 v2 :
+  eval (get_param s) e = Some v1 -> eval (get_param sc) ec = Some v2 ->
+  int_of_rep (merge_rep (Vol e s) (Vol ec sc)) = Some (Z.max 0 (v1 * v2)).
+Proof.
+  intros H1 H2. cbn [merge_rep int_of_rep eval get_param]. cbn. rewrite H1, H2. reflexivity.
+Qed.
+
+(* ... which is not the product of the clamped counts when both raw values are negative *)
+Lemma merge_joint_negative_refuted :
+  exists r rc a b, int_of_rep r = Some a /\ int_of_rep rc = Some b /\ int_of_rep (merge_rep r rc) <> Some (a * b).
+Proof.
+  exists (Vol (EVar 1%N) (SDict [(1%N, -1)] [1%N])), (Vol (EVar 1%N) (SDict [(1%N, -2)] [1%N])), 0, 0.
+  repeat split; vm_compute; discriminate.
+Qed.
+
+(* dependency keys of a merged joint count: both operands are reported *)
+Lemma merge_joint_dep_keys e s ec sc :
+  intersects (vars e) (vkeys s) = true -> intersects (vars ec) (vkeys sc) = true ->
+  dep_keys (merge_rep (Vol e s) (Vol ec sc)) = Some [JP; JC].
+Proof.
+  intros H1 H2. cbn [merge_rep dep_keys vars app filter].
+  assert (A : mem JP (vkeys (SJoint JP (SMapped s [(JP, e)]) JC (SMapped sc [(JC, ec)]))) = true).
+  { rewrite vkeys_depends. cbn [depends lookup]. rewrite N.eqb_refl. cbn [andb orb].
+    rewrite <- intersects_depends, H1. reflexivity. }
+  assert (B : mem JC (vkeys (SJoint JP (SMapped s [(JP, e)]) JC (SMapped sc [(JC, ec)]))) = true).
+  { rewrite vkeys_depends. cbn [depends lookup]. rewrite N.eqb_refl.
+    rewrite <- intersects_depends, H2. cbn. reflexivity. }
+  rewrite A, B. reflexivity.
+Qed.
+
+(* cleaned-up updated program = cleaned-up re-instantiated program *)
+Lemma cleanup_update_is_reinstantiate : forall ups p vals V t,
+  guard_C15_zero_count_seq p vals V ups = true ->
+  create_program p vals V = Ok (Some t) ->
+  exists t', create_program p (override_all ups vals) V = Ok (Some t') /\
+             cleanup t' = update_all ups (cleanup t).
+Proof.
+  intros ups p vals V t Hg Hc. exists (update_all ups t). split.
+  - apply update_sequence_is_reinstantiate; assumption.
+  - clear. revert t. induction ups as [|us r IH]; intros t; [reflexivity|].
+    cbn [update_all fold_left]. fold (update_all r (update us t)). fold (update_all r (update us (cleanup t))).
+    rewrite IH, cleanup_update. reflexivity.
+Qed.
+
+(* ------------------------------------------------------------------------------------------------------------ *)
+(* T5: flatten_and_balance: when no volatile loop is unrolled (no VolatileModificationWarning) every decision is
+   independent of the volatile values, so flattening commutes with updates *)
+Lemma depth_cons r m w c ch :
+  depth (Node r m w (c :: ch)) = 1 + fold_right (fun c acc => Z.max (depth c) acc) 0 (c :: ch).
+Proof. reflexivity. Qed.
+Lemma balanced_cons r m w c ch :
+  balanced (Node r m w (c :: ch)) = forallb (fun e => (depth e =? depth c) && balanced e) (c :: ch).
+Proof. reflexivity. Qed.
+
+Lemma depth_update us : forall t, depth (update us t) = depth t.
+Proof.
+  induction t as [r m w ch IH] using prog_ind'. destruct ch as [|c ch]; [reflexivity|].
+  cbn [update map]. rewrite !depth_cons. f_equal.
+  change (update us c :: map (update us) ch) with (map (update us) (c :: ch)).
+  induction IH as [|x xs Hx _ IHxs]; [reflexivity|]. cbn [map fold_right]. rewrite Hx, IHxs. reflexivity.
+Qed.
+
+Lemma balanced_update us : forall t, balanced (update us t) = balanced t.
+Proof.
+  induction t as [r m w ch IH] using prog_ind'. destruct ch as [|c ch]; [reflexivity|].
+  cbn [update map]. rewrite !balanced_cons. rewrite depth_update. generalize (depth c). intros d0.
+  change (update us c :: map (update us) ch) with (map (update us) (c :: ch)).
+  induction IH as [|x xs Hx _ IHxs]; [reflexivity|]. cbn [map forallb]. rewrite depth_update, Hx, IHxs. reflexivity.
+Qed.
+
+Lemma cnt_update_fixed us t : is_vol (rep_of t) = false -> cnt (update us t) = cnt t.
+Proof. destruct t as [[n|e s] m w ch]; cbn; [reflexivity|discriminate]. Qed.
+
+Lemma map_repeat_list {A B} (f : A -> B) n l : map f (repeat_list n l) = repeat_list n (map f l).
+Proof. induction n; cbn; [reflexivity|]. rewrite map_app, IHn. reflexivity. Qed.
+
+Lemma unrolled_update us t :
+  is_vol (rep_of t) = false -> unrolled (update us t) = map (update us) (unrolled t).
+Proof.
+  intros H. unfold unrolled. rewrite (cnt_update_fixed us t H), map_repeat_list.
+  destruct t; reflexivity.
+Qed.
+
+Lemma fab_warn_true : forall f d todo l w, fab f d todo true = Ok (l, w) -> w = true.
+Proof.
+  induction f as [|f IH]; intros d todo l w H; [discriminate|]. cbn [fab] in H.
+  destruct todo as [|sub rest]; [inversion H; reflexivity|].
+  destruct (depth sub <? d - 1); [eapply IH; eauto|].
+  destruct (negb (balanced sub)).
+  { destruct sub as [r m wf ch]. destruct (fab f (d - 1) ch true) as [[ch' w']|k] eqn:E; [|discriminate].
+    apply IH in E. subst. eapply IH; eauto. }
+  destruct (depth sub =? d - 1).
+  { destruct (fab f d rest true) as [[l' w']|k] eqn:E; [|discriminate]. apply IH in E. inversion H; subst; reflexivity. }
+  destruct (mergeable sub); [eapply IH; eauto|].
+  destruct sub as [r m wf [|c ch]].
+  - destruct (fab f d rest true) as [[l' w']|k] eqn:E; [|discriminate]. apply IH in E. inversion H; subst; reflexivity.
+  - cbn [orb] in H. eapply IH; eauto.
+Qed.
+
+Lemma fab_update : forall us f d todo l,
+  fab f d todo false = Ok (l, false) ->
+  fab f d (map (update us) todo) false = Ok (map (update us) l, false).
+Proof.
+  intros us. induction f as [|f IH]; intros d todo l H; [discriminate|]. cbn [fab] in H |- *.
+  destruct todo as [|sub rest]; [inversion H; reflexivity|]. cbn [map].
+  rewrite depth_update, balanced_update, mergeable_update.
+  destruct (depth sub <? d - 1).
+  { change (encapsulate (update us sub) :: map (update us) rest) with (map (update us) (encapsulate sub :: rest)).
+    apply IH. exact H. }
+  destruct (negb (balanced sub)).
+  { destruct sub as [r m wf ch]. cbn [update].
+    destruct (fab f (d - 1) ch false) as [[ch' w']|k] eqn:E; [|discriminate].
+    destruct w'; [apply fab_warn_true in H; discriminate|].
+    rewrite (IH _ _ _ E).
+    change (Node (upd_rep us r) m wf (map (update us) ch') :: map (update us) rest)
+      with (map (update us) (Node r m wf ch' :: rest)).
+    apply IH. exact H. }
+  destruct (depth sub =? d - 1).
+  { destruct (fab f d rest false) as [[l' w']|k] eqn:E; [|discriminate]. inversion H; subst.
+    rewrite (IH _ _ _ E). reflexivity. }
+  destruct (mergeable sub).
+  { rewrite merge_update. change (update us (merge sub) :: map (update us) rest) with (map (update us) (merge sub :: rest)).
+    apply IH. exact H. }
+  destruct sub as [r m wf [|c ch]].
+  - cbn [update map]. destruct (fab f d rest false) as [[l' w']|k] eqn:E; [|discriminate]. inversion H; subst.
+    rewrite (IH _ _ _ E). reflexivity.
+  - cbn [orb] in H. destruct (is_vol r) eqn:Vr; [apply fab_warn_true in H; discriminate|].
+    change (update us (Node r m wf (c :: ch))) with (Node (upd_rep us r) m wf (update us c :: map (update us) ch)).
+    assert (Vr' : is_vol (upd_rep us r) = false) by (destruct r; [reflexivity|discriminate]).
+    cbn [orb]. rewrite Vr'.
+    change (Node (upd_rep us r) m wf (update us c :: map (update us) ch)) with (update us (Node r m wf (c :: ch))).
+    rewrite unrolled_update by exact Vr. rewrite <- map_app. apply IH. exact H.
+Qed.
